@@ -37,36 +37,45 @@ impl Rig {
         Rig { ctx, got }
     }
 
-    fn script(wrapper: usize, pos: usize) -> String {
+    /// `place` 0: the wrapping line at the top level of the script; 1: inside the body of a user
+    /// function that was itself called with two arguments
+    fn script(wrapper: usize, pos: usize, place: usize) -> String {
         let args = if pos == 0 { "${v} z" } else { "z ${v}" };
-        match wrapper {
-            0 => format!("cap {}", args),
-            1 => format!("if cap {}\nend", args),
-            2 => format!("if false\nelseif cap {}\nend", args),
-            3 => format!("while cap {}\nend", args),
-            4 => format!("r = not cap {}", args),
-            5 => {
+        let (defs, body): (&str, String) = match wrapper {
+            0 => ("", format!("cap {}", args)),
+            1 => ("", format!("if cap {}\nend", args)),
+            2 => ("", format!("if false\nelseif cap {}\nend", args)),
+            3 => ("", format!("while cap {}\nend", args)),
+            4 => ("", format!("r = not cap {}", args)),
+            5 => (
+                "",
                 if pos == 0 {
                     "alias al cap ${v}\nal z".to_string()
                 } else {
                     "alias al cap z ${v}\nal".to_string()
-                }
-            }
-            6 => format!("alias al cap\nal {}", args),
-            8 => format!("alias al not cap\nr = al {}", args),
-            9 => {
+                },
+            ),
+            6 => ("", format!("alias al cap\nal {}", args)),
+            8 => ("", format!("alias al not cap\nr = al {}", args)),
+            9 => (
+                "",
                 if pos == 0 {
                     "alias al not cap ${v}\nr = al z".to_string()
                 } else {
                     "alias al not cap z ${v}\nr = al".to_string()
-                }
-            }
-            _ => format!("fn p\ncap ${{1}} ${{2}}\nreturn true\nend\nif p {}\nend", args),
+                },
+            ),
+            _ => ("fn p\ncap ${1} ${2}\nreturn true\nend\n", format!("if p {}\nend", args)),
+        };
+        if place == 0 {
+            format!("{}{}", defs, body)
+        } else {
+            format!("{}fn outer\n{}\nend\nouter outer-one outer-two", defs, body)
         }
     }
 
     /// what the capture command received on its first invocation (None: it was not invoked)
-    fn run(&self, wrapper: usize, pos: usize, v: &str, halt: Option<std::sync::Arc<WatchSlot>>) -> Result<Option<Vec<String>>, String> {
+    fn run(&self, wrapper: usize, pos: usize, place: usize, v: &str, halt: Option<std::sync::Arc<WatchSlot>>) -> Result<Option<Vec<String>>, String> {
         self.got.borrow_mut().clear();
         let mut ctx = self.ctx.clone();
         ctx.variables.insert("v".into(), v.to_string());
@@ -78,7 +87,7 @@ impl Rig {
         if let Some(slot) = halt {
             *slot.halt.lock().unwrap() = Some(h.clone());
         }
-        match runner::run_script(&Rig::script(wrapper, pos), ctx, Some(env)) {
+        match runner::run_script(&Rig::script(wrapper, pos, place), ctx, Some(env)) {
             Ok(_) => Ok(self.got.borrow().first().cloned()),
             Err(e) => Err(e.to_string()),
         }
@@ -179,14 +188,14 @@ pub fn worker(w: &mut Worker) {
         for pos in 0..2usize {
             // the direct call is the reference
             let expected: Vec<String> = if pos == 0 { vec![v.clone(), "z".into()] } else { vec!["z".into(), v.clone()] };
-            for wr in 0..WRAPPERS.len() {
+            for (wr, place) in (0..WRAPPERS.len()).flat_map(|x| [(x, 0usize), (x, 1usize)]) {
                 if !w.take() {
                     continue;
                 }
-                let cj = json!({"value": v, "position": pos, "wrapper": WRAPPERS[wr]});
+                let cj = json!({"value": v, "position": pos, "wrapper": WRAPPERS[wr], "place": place});
                 w.begin(|| cj.clone());
                 let slot = w.watch_slot();
-                let r = guarded(|| rig.run(wr, pos, v, Some(slot)));
+                let r = guarded(|| rig.run(wr, pos, place, v, Some(slot)));
                 w.add_transitions(1);
                 let nontrivial = class_of(v) != "plain";
                 match r {
@@ -226,11 +235,12 @@ pub fn replay(case: &Value) -> Result<String, String> {
     let v = case["value"].as_str().ok_or("value")?;
     let pos = case["position"].as_u64().unwrap_or(0) as usize;
     let wr = WRAPPERS.iter().position(|x| Some(*x) == case["wrapper"].as_str()).unwrap_or(0);
+    let place = case["place"].as_u64().unwrap_or(0) as usize;
     Ok(format!(
         "through {}: {:?}; direct: {:?}; predicted by the re-serialisation model: {:?}",
         WRAPPERS[wr],
-        rig.run(wr, pos, v, None),
-        rig.run(0, pos, v, None),
+        rig.run(wr, pos, place, v, None),
+        rig.run(0, pos, 0, v, None),
         rig.predicted_by_reserialisation(v, pos, wr == 7)
     ))
 }
@@ -239,7 +249,7 @@ pub fn crash_sig(case: &Value, kind: &str) -> String {
     format!("{}:{}:{}", kind, case["wrapper"].as_str().unwrap_or("?"), class_of(case["value"].as_str().unwrap_or("")))
 }
 
-pub const RULE: &str = "values: every string up to the length bound over {a SP \" # \\\\ $ { } % LF CR = TAB e-acute} plus 8 special values (${v}, %{v}, \\\\${v}, ${w}, 'a b', '\"a b\"', 'a  b', x=y), held in a variable and written as ${v} in first or second argument position of a capture command invoked directly, as the condition of if / elseif / while, under not, through an alias that stores the value, through an alias that is passed the value, through a user function used as predicate, and through aliases whose target is `not <predicate>` (value passed or stored). Oracle: the arguments received through the wrapper equal those received by the direct call. A failing case is classified by whether the received arguments equal what re-serialising the values into a line and parsing/binding it again yields (the recorded defect, one signature per input class) or not (a new violation). Non-trivial: the value contains a character other than plain letters";
+pub const RULE: &str = "values: every string up to the length bound over {a SP \" # \\\\ $ { } % LF CR = TAB e-acute} plus 8 special values (${v}, %{v}, \\\\${v}, ${w}, 'a b', '\"a b\"', 'a  b', x=y), held in a variable and written as ${v} in first or second argument position of a capture command invoked directly, as the condition of if / elseif / while, under not, through an alias that stores the value, through an alias that is passed the value, through a user function used as predicate, and through aliases whose target is `not <predicate>` (value passed or stored); every wrapping line both at the top level of the script and inside the body of a user function that was itself called with two arguments. Oracle: the arguments received through the wrapper equal those received by the direct call. A failing case is classified by whether the received arguments equal what re-serialising the values into a line and parsing/binding it again yields (the recorded defect, one signature per input class) or not (a new violation). Non-trivial: the value contains a character other than plain letters";
 pub const ASSUMPTIONS: &[&str] = &["the capture command returns true on its first call and false afterwards (so a while loop ends)", "classification of known findings uses the real parser and binder on a transcription of the line building in utils/eval.rs"];
 pub const EXHAUSTIVE: bool = true;
 pub const WALL_CAP_S: (u64, u64) = (55, 1500);
